@@ -435,5 +435,23 @@ def r14_12(ctx):
     delegate(ctx, c01.r01_1, lambda c: 'Symbol.str_value' in c)
 
 
+def r14_13(ctx):
+    """R14.13 a `load` request replaces the configuration like a start on that file: handle_request() calls
+    config.load_config(<file>) with the defaults `replace=True, is_main_sdkconfig=True` - loaded as a secondary file the
+    default-marked entries are compared with the stale baseline of the start-up file and the old values are injected, so the
+    client no longer holds what a fresh server on that file reports."""
+    repo = ctx.repo
+    f = repo.func(f"{KS}:handle_request")
+    ctx.analysed(f.qual)
+    loads = [n for n in ast.walk(f.node) if isinstance(n, ast.Call) and ast.unparse(n.func).endswith(".load_config")]
+    if not loads:
+        raise AnchorError("handle_request: load_config call not found")
+    construct = "handle_request/`load` is a replacing load of the main configuration file"
+    bad = [k for k in loads[0].keywords if k.arg in ("replace", "is_main_sdkconfig") and not (isinstance(k.value, ast.Constant) and k.value.value is True)]
+    pos = len(loads[0].args) > 1
+    (ctx.bad(construct, f"`{ast.unparse(loads[0])[:80]}`: the file is merged / loaded as a secondary file - stale baselines and user values of the previous "
+             "configuration survive", f.loc(loads[0])) if bad or pos else ctx.ok(construct, f.loc(loads[0])))
+
+
 def rules():
-    return [("R14.12", r14_12, 3), ("R14.11", r14_11, 2), ("R14.10", r14_10, 1), ("R14.9", r14_9, 1), ("R14.1", r14_1, 9), ("R14.2", r14_2, 5), ("R14.3", r14_3, 3), ("R14.4", r14_4, 20), ("R14.5", r14_5, 10), ("R14.6", r14_6, 5), ("R14.7", r14_7, 1), ("R14.8", r14_8, 6)]
+    return [("R14.13", r14_13, 1), ("R14.12", r14_12, 3), ("R14.11", r14_11, 2), ("R14.10", r14_10, 1), ("R14.9", r14_9, 1), ("R14.1", r14_1, 9), ("R14.2", r14_2, 5), ("R14.3", r14_3, 3), ("R14.4", r14_4, 20), ("R14.5", r14_5, 10), ("R14.6", r14_6, 5), ("R14.7", r14_7, 1), ("R14.8", r14_8, 6)]
